@@ -66,6 +66,8 @@ BOXES = {
     "B_3d": [(-1.0, 1.0), (-1.0, 1.0), (-1.0, 1.0)],
     "B_zero": [(0.0, 5.0), (-5.0, 0.0)],  # bounds that are exactly zero
     "B_6d": [(-2.0, 3.0)] * 6,
+    "B_1d": [(-2.0, 6.0)],
+    "B_5d": [(-1.0, 2.0), (0.5, 1.5), (-3.0, -1.0), (10.0, 12.0), (-0.5, 0.5)],
 }
 
 ROOTS = ["SEA", "SEAX", "GA", "SEAA", "MWEA", "DE", "DEd", "SHADE", "LHS", "SOB"]
@@ -537,7 +539,7 @@ def make_level(engine, problem, lsc, gens, box, desc):
         ]
         kw = dict(mutation_std=mstd, p_mutation=desc.get("pmut", 1.0), k_elites=desc.get("kelites", 1))
         if engine == "MWEA":
-            kw.update(election_group_size=4, k_elites=2)
+            kw.update(election_group_size=desc.get("mwea_group", 4), k_elites=2)
         if engine == "SEAA":
             kw.update(mutation_std_step=mstd / 8.0)
         return EALevelConfig(
